@@ -288,6 +288,9 @@ _RD = "Panacea.Refine.DidTypes"
 R_DIDV = [f"{_RD}.validateDID_refines", f"{_RD}.validateVMID_refines", f"{_RD}.vmValid_refines", f"{_RD}.relValid_refines",
           f"{_RD}.validRels_refines", f"{_RD}.validateContexts_refines", f"{_RD}.docValid_refines",
           f"{_RD}.create_validateBasic_refines", f"{_RD}.update_validateBasic_refines", f"{_RD}.deactivate_validateBasic_refines"]
+_RK = "Panacea.Refine.DidKeeper"
+R_DIDK = [f"{_RK}.vmFrom_run", f"{_RK}.findSome_vmFrom", f"{_RK}.verifyOwnership_refines", f"{_RK}.createDID_refines",
+          f"{_RK}.updateDID_refines", f"{_RK}.deactivateDID_refines"]
 REFINE = {
     "C18": ([_RC], R_COMPKEY),
     "C01": ([_RA], R_COMPKEY + R_AOL),
@@ -296,9 +299,11 @@ REFINE = {
     "C15": ([_RT], R_SIGNERS),
     "C16": ([_RT, _RD], R_VB + R_DIDV),
     "C17": ([_RT, _RC, _RD], R_VB + R_SIGNERS + R_COMPKEY + R_DIDV[-3:]),
-    "C11": ([_RD], R_DIDV[-4:]),
-    "C03": ([_RD], R_DIDV[3:5] + R_DIDV[6:7]),
+    "C11": ([_RD, _RK], R_DIDV[-4:] + R_DIDK[3:5]),
+    "C03": ([_RD, _RK], R_DIDV[3:5] + R_DIDV[6:7] + R_DIDK),
+    "C04": ([_RK], R_DIDK[2:]),
+    "C05": ([_RK], R_DIDK[3:]),
 }
 REFINE_TRUSTED = [
-    "translator /verif/extract/code.go (Go → Lean `do`-blocks, statement by statement; anything it does not understand becomes `Go.unsupported`, which no refinement proof survives) and the meaning of its primitives lean/Panacea/Go/{Prelude,Lib}.lean (slices as lists with bounds checks that panic, `int` as unbounded Int, uint64 wrap-around, pointers as Option with panicking dereference, KV store as a sorted association list, bech32 and the protobuf codec as parameters — the latter with the two laws of LawfulProto)",
+    "translator /verif/extract/code.go (Go → Lean `do`-blocks, statement by statement; anything it does not understand becomes `Go.unsupported`, which no refinement proof survives) and the meaning of its primitives lean/Panacea/Go/{Prelude,Lib}.lean (slices as lists with bounds checks that panic, `int` as unbounded Int, uint64 wrap-around, pointers as Option with panicking dereference, KV store as a sorted association list, bech32, the signature scheme and the protobuf codec as parameters — the codec with the two laws of LawfulProto and, for x/did, three facts about the encoding of documents (a length-prefixed value is never empty; the zero document encodes to the empty string; DIDDocument{Id: d} encodes to the bytes the model writes out), repeated message fields without nil elements (what protobuf decoding produces), decoded addresses never empty)",
 ]
